@@ -27,8 +27,14 @@ REGISTRATION = {
             "theorems assume no collision between strings of different length); the file system is faithful; one "
             "chunk answer is consumed at a time (true write-write races between overlapping chunks and two "
             "concurrent Pull calls on one blob are not explored); read timeouts are driven in fake time (requests "
-            "waiting for headers, and a body that goes silent mid-way); trace callbacks ignored; legacy "
-            "push: single-part uploads only (files < 100 MB), no 401/token and no 307 redirect path. Known "
+            "waiting for headers, and a body that goes silent mid-way); trace callbacks ignored; every "
+            "request kind of pull and of both push paths is answered from the whole status alphabet (1xx, 2xx, "
+            "3xx with/without Location, 4xx, 5xx) and net/http's redirect handling per method and body kind is "
+            "part of the model (`follow`, measured by exact L1 incl. an exhaustive first-answer enumeration); "
+            "legacy push: single-part uploads only (files < 100 MB); not scripted: 401 (token dance), a final 201 "
+            "to the upload POST and a final 307 to a PATCH try (both can block the real code for ever). Known "
+            "finding F18 (legacy push takes every final status < 400 for a success; "
+            "proposed_fixes/C09-F18-legacy-push-require-2xx.patch, model flag `strict` selected by a probe) and "
             "finding F10d (Chunked writes into the final blob file) is open on /repo; "
             "proposed_fixes/C09-F10d-stage-chunked-blob.patch repairs it and the check passes on both trees.",
 }
@@ -46,6 +52,9 @@ THEOREMS = [
     "OllamaVerif.C09.handlePull_exits",
     "OllamaVerif.C09.handlePull_success_verified",
     "OllamaVerif.C09.push_manifest_last",
+    "OllamaVerif.C09.layerRun_good_last_2xx",
+    "OllamaVerif.C09.exchange_ok_last_2xx",
+    "OllamaVerif.C09.F18_legacy_non_2xx_counts_as_accepted",
     "OllamaVerif.C09.legacy_push_manifest_last",
     "OllamaVerif.C09.F10a_holey_file_trusted_on_retry",
     "OllamaVerif.C09.F10b_repeated_chunk_satisfies_counter",
